@@ -87,9 +87,7 @@ def fields_used(F, b, argn, adt):
                 return
             return
 
-    def scan_operand(o):
-        if o and o[0] in ("c", "m"):
-            scan_place(o[1])
+    tuple_alias = {}  # local -> {tuple index: True} when the element is (a ref to) the parameter
 
     # locals that alias the parameter (copies / reborrows of self)
     alias = {argn}
@@ -109,6 +107,21 @@ def fields_used(F, b, argn, adt):
                         if len(b.defs().get(st[1][0], [])) == 1:
                             alias.add(st[1][0])
                             changed = True
+    # `match (self, other)` builds a tuple of the two operands first
+    for blk in b.blocks:
+        for st in blk["s"]:
+            if st[0] == "=" and len(st[1]) == 1 and st[2][0] == "agg" and st[2][1][0] == "tuple":
+                for i, o in enumerate(st[2][2]):
+                    if o[0] in ("c", "m") and o[1][0] in alias and all(p == "*" for p in o[1][1:]):
+                        tuple_alias.setdefault(st[1][0], {})[i] = True
+
+    def untuple(pl):
+        """(_t.i ...) where _t is a tuple holding the parameter at index i -> rooted at argn"""
+        if pl[0] in tuple_alias and len(pl) > 1 and isinstance(pl[1], list) and pl[1][0] == "." \
+                and pl[1][1] in tuple_alias[pl[0]]:
+            return [argn] + list(pl[2:])
+        return None
+
     for blk in b.blocks:
         for st in blk["s"]:
             if st[0] != "=":
@@ -132,11 +145,19 @@ def fields_used(F, b, argn, adt):
             for pl in places:
                 if pl[0] in alias:
                     scan_place([argn] + list(pl[1:]))
+                else:
+                    u = untuple(pl)
+                    if u:
+                        scan_place(u)
         t = blk["t"]
         if t["k"] == "call":
             for a in t["args"]:
                 if a[0] in ("c", "m") and a[1][0] in alias:
                     scan_place([argn] + list(a[1][1:]))
+                elif a[0] in ("c", "m"):
+                    u = untuple(a[1])
+                    if u:
+                        scan_place(u)
             # getter calls on self
             if t["args"] and t["fn"]:
                 a0 = t["args"][0]
@@ -150,6 +171,10 @@ def fields_used(F, b, argn, adt):
                         out.add("m:" + t["fn"].split("::")[-1])
         elif t["k"] == "switch" and t["d"][0] in ("c", "m") and t["d"][1][0] in alias:
             scan_place([argn] + list(t["d"][1][1:]))
+        elif t["k"] == "switch" and t["d"][0] in ("c", "m"):
+            u = untuple(t["d"][1])
+            if u:
+                scan_place(u)
     return out
 
 
@@ -181,7 +206,7 @@ def _same_type_impl(im):
 
 def rule_set(ctx, F):
     R = "C04.set"
-    ctx.floor(R, 60)
+    ctx.floor(R, 280)
     by = _impls_by_adt(F)
     for adt in sorted(by):
         tr = by[adt]
@@ -279,12 +304,16 @@ def access_path(b, t):
             return None
 
 
+COMPARATORS = re.compile(
+    r"::(eq|ne|cmp|partial_cmp|lt|le|gt|ge|name_eq|name_cmp|canonical_cmp|composed_cmp|lowercase_composed_cmp|"
+    r"eq_ignore_ascii_case|canonical_lt|canonical_le|canonical_gt|canonical_ge)$")
+
 CMP_FNS = {EQ: ("eq", "ne"), ORD: ("cmp",), PORD: ("partial_cmp",), CORD: ("canonical_cmp",)}
 
 
 def rule_pair(ctx, F):
     R = "C04.pair"
-    ctx.floor(R, 300)
+    ctx.floor(R, 600)
     n = 0
     for im in F.impls:
         adt = im["self_adt"]
@@ -300,7 +329,7 @@ def rule_pair(ctx, F):
                     if st[0] == "=" and st[2][0] == "bin" and st[2][1] in ("Eq", "Ne", "Lt", "Le", "Gt", "Ge"):
                         sites.append((bi, st[2][1], b.term_of_operand(st[2][2]), b.term_of_operand(st[2][3])))
                 t = b.blocks[bi]["t"]
-                if t["k"] == "call" and len(t["args"]) == 2 and t["fn"]:
+                if t["k"] == "call" and len(t["args"]) == 2 and t["fn"] and COMPARATORS.search(t["fn"]):
                     sites.append((bi, t["fn"].split("::")[-1], b.term_of_operand(t["args"][0]), b.term_of_operand(t["args"][1])))
             seen = {}
             for bi, what, x, y in sites:
@@ -315,6 +344,8 @@ def rule_pair(ctx, F):
                 same_root = px[0] == py[0]
                 lx = [e for e in px[1] if e != "[]"]
                 ly = [e for e in py[1] if e != "[]"]
+                if not same_root and (not _norm_path(lx) or not _norm_path(ly)):
+                    continue  # a field of a wrapper compared with a whole foreign value (PartialEq<U>)
                 same_path = _norm_path(lx) == _norm_path(ly)
                 k = (what, tuple(lx))
                 seen[k] = seen.get(k, 0) + 1
@@ -331,8 +362,8 @@ def rule_pair(ctx, F):
 
 
 def _norm_path(p):
-    return [re.sub(r"^(as_ref|as_slice|borrow|deref|clone|to_owned|as_str|as_bytes|iter|into_iter)\(\)$", "", e) for e in p if
-            not re.match(r"^(as_ref|as_slice|borrow|deref|clone|to_owned|as_str|as_bytes|iter|into_iter|iter_labels)\(\)$", e)]
+    return [e for e in p if
+            not re.match(r"^(as_ref|as_slice|borrow|deref|clone|to_owned|as_str|as_bytes|iter|into_iter|iter_labels|as_label|map|copied|cloned|rev)\(\)$", e)]
 
 
 # ---------------------------------------------------------------------------
@@ -383,11 +414,10 @@ def _fold_calls(F, b, depth=0, seen=None):
 
 
 FOLD_FNS = [
-    ("<base::name::label::Label as core::cmp::PartialEq>::eq", True),
+    ("<base::name::label::Label as core::cmp::PartialEq<T>>::eq", True),
     ("<base::name::label::Label as core::cmp::Ord>::cmp", True),
     ("<base::name::label::Label as core::hash::Hash>::hash", True),
     ("base::name::label::Label::compose_canonical", True),
-    ("<base::name::label::Label as base::cmp::CanonicalOrd>::canonical_cmp", True),
     ("base::name::label::Label::make_canonical", True),
     ("base::name::label::Label::to_canonical", True),
 ]
@@ -439,6 +469,9 @@ def _name_types(F):
         if im["trait"] in ("base::name::traits::ToName", "base::name::traits::ToRelativeName") and im["self_adt"] \
                 and not im["self_adt"].startswith("&"):
             out.add(im["self_adt"])
+    # UncertainName wraps either kind of name and has its own Eq/Hash
+    if "base::name::uncertain::UncertainName" in F.adts:
+        out.add("base::name::uncertain::UncertainName")
     return sorted(out)
 
 
@@ -446,7 +479,7 @@ def rule_repr(ctx, F):
     R = "C04.repr"
     ctx.floor(R, 12)
     names = _name_types(F)
-    ctx.anchor(R, "name types (impl ToName / ToRelativeName)", len(names) >= 5)
+    ctx.anchor(R, "name types (impl ToName / ToRelativeName)", len(names) >= 4)
     ctx.note("name types: %s" % names)
     for adt in names:
         for im in F.impls:
@@ -503,7 +536,7 @@ def rule_repr(ctx, F):
 
 def rule_canon(ctx, F):
     R = "C04.canon"
-    ctx.floor(R, 25)
+    ctx.floor(R, 120)
     # Record::canonical_cmp: class, owner (name_cmp), rtype, data
     b = F.one_body(r"^<base::record::Record<N, D> as base::cmp::CanonicalOrd<base::record::Record<NN, DD>>>::canonical_cmp$")
     if ctx.anchor(R, "<Record as CanonicalOrd>::canonical_cmp", b):
